@@ -50,7 +50,7 @@ BpCalls ==
                                                     q \in BpPaths}
     \cup {[C0 EXCEPT !.op = "getwd"]}
     \* Sub through the wrapper (absolute directories), then a mutator through what it returns
-    \cup {[C0 EXCEPT !.op = o, !.p = AbsP(d), !.q = RelP(<<"n">>), !.data = <<3>>] : o \in {"subwrite", "submkdir"},
+    \cup {[C0 EXCEPT !.op = o, !.p = AbsP(d), !.q = RelP(<<"t">>), !.data = <<3>>] : o \in {"subwrite", "submkdir"},
               d \in {<<>>, <<"a">>, <<"f">>, <<"b">>, <<"..">>, <<"a", "..", "..", "a">>, <<"w", "B">>}}
     \cup {[C0 EXCEPT !.op = "glob", !.p = p] : p \in {AbsP(<<"*">>), AbsP(<<"a", "*">>), AbsP(<<"..", "*">>), AbsP(<<"?">>), RelP(<<"*">>)}}
     \cup {[C0 EXCEPT !.op = "walk", !.p = p, !.n = k, !.flag = <<"SkipDir">>] : p \in {AbsP(<<>>), AbsP(<<"a">>), AbsP(<<"f">>)}, k \in {0, 2}}
@@ -105,7 +105,11 @@ Impl == IF "VERIF_IMPL" \in DOMAIN IOEnv THEN IOEnv.VERIF_IMPL ELSE "memfs"
 WKind == IF Kind = "rofs-sym" THEN "rofs" ELSE Kind
 
 \* C11: views at /w/B (BpBase tree), at / and at /w; calls as for BasePathFS plus the per-view setters
-SubDirs == IF "VERIF_SUBALL" \in DOMAIN IOEnv THEN {<<"w", "B">>, <<"w">>, <<>>} ELSE {<<"w", "B">>}
+\* (and, from the plain base, at the EMPTY directory /w/B/a, which the parent may then remove: the life cycle of a
+\* view's root)
+SubDirs == (IF "VERIF_SUBALL" \in DOMAIN IOEnv THEN {<<"w", "B">>, <<"w">>, <<>>} ELSE {<<"w", "B">>})
+           \cup (IF hist = BpBase THEN {<<"w", "B", "a">>} ELSE {})
+RootGone(s) == w = "sub" /\ Res(s, AbsP(wx.dir), FALSE).id = 0
 SubCalls == BpCalls \cup {[C0 EXCEPT !.op = "setumask", !.perm = m] : m \in {0, 63}}
 \* calls on the parent itself (v = 9), interleaved with the calls through the view: what the parent does inside the
 \* view's directory is visible through the view at once, and its own working directory and umask stay its own
@@ -199,8 +203,24 @@ Call ==
           /\ ~(Kind = "basepath" /\ ~c.p.abs /\ c.op \in {"remove", "removeall", "rename"}
                /\ LET rr == Res(st, c.p, FALSE) IN rr.err = "ok" /\ rr.id # Root /\ rr.id \in Range(st.cwd))
           \* ... and so is the parent removing or moving the view's working directory from under it
+          \* (except that the parent may Remove the root of the view of /w/B/a while the view's working directory is that root)
           /\ ~(Kind = "sub" /\ c.v = 9 /\ c.op \in {"remove", "removeall", "rename"}
+               /\ ~(c.op = "remove" /\ c.p.parts = wx.dir /\ wx.vcwd = <<>> /\ Len(wx.dir) = 3)
                /\ LET vc == wx.dir \o wx.vcwd IN Len(c.p.parts) <= Len(vc) /\ SubSeq(vc, 1, Len(c.p.parts)) = c.p.parts)
+          \* (the view of /w/B/a does not remove its own root - KF32, exercised by the view of /w/B -: the state after it
+          \* would be the same, under VIEW, as the one after the parent's Remove, and only one of the two histories
+          \* would be emitted)
+          /\ ~(Kind = "sub" /\ c.v = 0 /\ Len(wx.dir) = 3 /\ c.op \in {"remove", "removeall", "rename"}
+               /\ ToBaseD(wx.dir, wx.vcwd, c.p).parts = wx.dir)
+          \* once the view's root directory is gone, C11 says what happens BELOW it (nothing can be found or created there:
+          \* the parent's answer for dir + p); the removed root itself is still an (empty) directory for the view, as the
+          \* root of a chroot is for its processes, and is not called upon
+          /\ ((RootGone(st) /\ c.v \notin {8, 9}) =>
+                 \* (MkdirAll is left out as well: the parent's MkdirAll of dir + p would make dir anew, which the view, holding
+                 \* the removed directory, cannot do - it answers ENOENT like the other creating calls)
+                 (/\ c.op \notin HOps \cup {"getwd", "subwrite", "submkdir", "walk", "mkdirall"}
+                  /\ (c.op # "setumask" => Len(ToBaseD(wx.dir, wx.vcwd, c.p).parts) > Len(wx.dir))
+                  /\ (c.op \in {"rename", "link"} => Len(ToBaseD(wx.dir, wx.vcwd, c.q).parts) > Len(wx.dir))))
           \* (with a second view, only the sequences in which it takes part: the others are those of the single view)
           /\ ~(Kind = "sub" /\ wx.dir2 # <<"none">> /\ wh # <<>> /\ last.call.v # 8 /\ c.v # 8)
           \* (nor one view removing or moving the other view's directory or working directory)
